@@ -896,17 +896,26 @@ func (sm *shardManagerImpl) broadcastShardChange(msgType string, shard history.C
 		return
 	}
 
-	// Use remoteNodeStates map to get list of nodes to send to
-	sm.remoteNodeStatesMu.RLock()
-	nodeNames := make([]string, 0, len(sm.remoteNodeStates))
-	for nodeName := range sm.remoteNodeStates {
+	// Send to every current member of the cluster. remoteNodeStates only holds the nodes whose
+	// full state has already been merged - right after a join that is just the node that was
+	// joined - so peers missing from it would never learn about the change.
+	sm.mutex.RLock()
+	ml := sm.ml
+	sm.mutex.RUnlock()
+	if ml == nil {
+		return
+	}
+	sm.mlMutex.RLock()
+	members := ml.Members()
+	nodeNames := make([]string, 0, len(members))
+	for _, n := range members {
 		// Skip sending to self node
-		if nodeName == sm.GetNodeName() {
+		if n == nil || n.Name == sm.GetNodeName() {
 			continue
 		}
-		nodeNames = append(nodeNames, nodeName)
+		nodeNames = append(nodeNames, n.Name)
 	}
-	sm.remoteNodeStatesMu.RUnlock()
+	sm.mlMutex.RUnlock()
 
 	for _, nodeName := range nodeNames {
 		// Send in goroutine to make it non-blocking
